@@ -185,12 +185,18 @@ func VerifH_C13_ConcurrencyBounds() {
 	if nd.Thorough() {
 		rounds = 2
 	}
-	for i := 0; i < rounds; i++ {
-		head++
-		sc.listen(ctx, verifHeader(head))
+	for i := 0; i <= rounds; i++ {
+		if i > 0 {
+			head++
+			sc.listen(ctx, verifHeader(head))
+		}
 		stats, err := sc.stats(ctx)
 		nd.Assert(err == nil, "stats-available")
 		nd.Cover("observed")
+		// catch-up is reported done exactly when nothing is queued, in flight
+		// or failed - at every point the coordinator can be observed
+		idle := len(stats.Workers) == 0 && len(stats.Failed) == 0 && stats.CatchupHead >= stats.NetworkHead
+		nd.Assert(stats.CatchUpDone == idle, "catch-up-done-iff-nothing-pending")
 		nd.Assert(len(stats.Workers) <= 2*limit, "at-most-twice-the-limit-including-recent-jobs")
 		nonRecent := 0
 		for _, w := range stats.Workers {
